@@ -30,7 +30,7 @@ def reshard(lines, shards, vshards):
 
 
 def generate(rng, tier):
-    n, steps = {"quick": (12, 20), "thorough": (150, 40), "search": (40, 25)}.get(tier, (12, 20))
+    n, steps = {"quick": (30, 20), "thorough": (150, 40), "search": (40, 25)}.get(tier, (12, 20))
     cases = []
     for i in range(n):
         kind = ["sort", "bsort", "visual", "bvisual"][i % 4]
@@ -50,7 +50,7 @@ def generate(rng, tier):
     # the same stream in several orders (permutations, reversed) must give the model's (order independent) answer
     c17 = importlib.import_module("props.C17")
     votes = [c for c in c17.generate(rng, tier) if c[0].startswith("vote best") or c[0].startswith("vote topn")]
-    cases += votes[:{"quick": 300, "thorough": 6000, "search": 1500}.get(tier, 300)]
+    cases += votes[:{"quick": 800, "thorough": 6000, "search": 1500}.get(tier, 300)]
     return cases
 
 
